@@ -578,11 +578,7 @@ class ExprMixin:
                 tt, isint = num_term(x)
                 return tt
 
-            lo_t, hi_t = t(lo), t(hi)
-            for x in (lo_t, hi_t):
-                if x is not None and self.branch(x < 0):
-                    raise Unsupported("negative slice bound on symbolic sequence")
-            return o.slice(lo_t, hi_t)
+            return o.slice(t(lo), t(hi))
         if isinstance(o, (list, tuple, str)):
             if isinstance(lo, SNum) or isinstance(hi, SNum):
                 raise Unsupported("symbolic slice of concrete sequence")
